@@ -1,7 +1,7 @@
 (* Conn/Proofs.v -- C13: quiescent => empty, per component and for the product. *)
 From Coq Require Import ZArith NArith List Bool Lia.
 From GoCoap Require Import Base.Bytes Conn.MutexMap Conn.Model Conn.Spec.
-From GoCoap Require Dedup.Proofs Retx.Proofs Limiter.Proofs Blockwise.Proofs.
+From GoCoap Require Dedup.Proofs Retx.Proofs Limiter.Proofs Blockwise.Proofs Blockwise.Config.
 Import ListNotations.
 Open Scope Z_scope.
 
@@ -9,6 +9,7 @@ Module DP := GoCoap.Dedup.Proofs.
 Module RP := GoCoap.Retx.Proofs.
 Module LP := GoCoap.Limiter.Proofs.
 Module BP := GoCoap.Blockwise.Proofs.
+Module BC := GoCoap.Blockwise.Config.
 
 (* ================================================================== *)
 (* 1. response cache (Dedup): gone after the exchange lifetime          *)
@@ -277,4 +278,181 @@ Proof.
   assert (forall n l0, ticks c (S n) l0 = fst (R.tick_all c (ticks c n l0))) as Hs.
   { induction n as [|n IHn]; intros l0; [reflexivity|]. cbn [ticks] in *. rewrite <- IHn. reflexivity. }
   rewrite Hs. apply ripe_all_gone. exact HR.
+Qed.
+
+(* ================================================================== *)
+(* 3. token continuations: every exit path of doInternal removes its entry *)
+
+Definition trun (s : toks) (l : list tact) : toks := fold_left tstep l s.
+
+Definition tok_owned (s : toks) : Prop := forall tok r, In (tok, r) (ttab s) -> tst s r = TWait tok.
+
+Lemma in_tremove l k tok r : In (tok, r) (tremove l k) -> In (tok, r) l /\ tok <> k.
+Proof.
+  unfold tremove. intros H. apply filter_In in H. destruct H as [H1 H2]. split; [exact H1|].
+  cbn [fst] in H2. apply negb_true_iff in H2. apply Z.eqb_neq in H2. exact H2.
+Qed.
+
+Lemma tok_owned_step s a : tok_owned s -> tok_owned (tstep s a).
+Proof.
+  intros H. destruct a as [r tok | tok | r]; cbn [tstep].
+  - destruct (tst s r) eqn:Er; try exact H.
+    destruct (tassoc (ttab s) tok).
+    + intros tok' r' Hin. cbn [ttab tst] in *. unfold tset. destruct (r' =? r) eqn:E.
+      * apply Z.eqb_eq in E. subst. rewrite (H tok' r Hin) in Er. discriminate.
+      * apply H. exact Hin.
+    + intros tok' r' Hin. cbn [ttab tst] in *. unfold tset. destruct Hin as [Heq|Hin].
+      * inversion Heq; subst. rewrite Z.eqb_refl. reflexivity.
+      * destruct (r' =? r) eqn:E; [|apply H; exact Hin].
+        apply Z.eqb_eq in E. subst. rewrite (H tok' r Hin) in Er. discriminate.
+  - intros tok' r' Hin. cbn [ttab tst] in *. apply in_tremove in Hin. apply H. apply Hin.
+  - destruct (tst s r) eqn:Er; try exact H.
+    intros tok' r' Hin. cbn [ttab tst] in *. apply in_tremove in Hin. destruct Hin as [Hin Hne].
+    unfold tset. destruct (r' =? r) eqn:E; [|apply H; exact Hin].
+    apply Z.eqb_eq in E. subst. rewrite (H tok' r Hin) in Er. inversion Er. congruence.
+Qed.
+
+Lemma tok_owned_run l : forall s, tok_owned s -> tok_owned (trun s l).
+Proof. induction l as [|a r IH]; intros s H; cbn; [exact H|]. apply IH. apply tok_owned_step. exact H. Qed.
+
+(* for every schedule of registrations, deliveries and returns: an entry of the token table belongs
+   to a call that has registered and not yet returned; so when every call has returned the table is
+   empty, and a call that has returned owns no entry *)
+Theorem tokens_owned : forall l tok r, In (tok, r) (ttab (trun toks0 l)) -> tst (trun toks0 l) r = TWait tok.
+Proof. intros l. apply tok_owned_run. intros tok r []. Qed.
+
+Theorem tokens_gone : forall l, (forall r tok, tst (trun toks0 l) r <> TWait tok) -> ttab (trun toks0 l) = [].
+Proof.
+  intros l H. destruct (ttab (trun toks0 l)) as [|[tok r] rest] eqn:E; [reflexivity|].
+  exfalso. apply (H r tok). apply tokens_owned. rewrite E. left. reflexivity.
+Qed.
+
+Theorem exit_removes_own_entry : forall l r tok, tst (trun toks0 l) r = TWait tok ->
+  forall tok', ~ In (tok', r) (ttab (tstep (trun toks0 l) (TExit r))).
+Proof.
+  intros l r tok Hst tok' Hin. cbn [tstep] in Hin. rewrite Hst in Hin. cbn [ttab] in Hin.
+  apply in_tremove in Hin. destruct Hin as [Hin Hne]. pose proof (tokens_owned l tok' r Hin) as H2. congruence.
+Qed.
+
+(* ================================================================== *)
+(* 4. block-wise caches (Blockwise.Model): completion, error, expiry   *)
+
+Lemma complete_removes : forall p d e p' e' rets, B.complete p d e = (p', e', rets) ->
+  forall i t, In (i, t) p -> existsb (fun m => B.mtok m =? t) d = true -> B.tget (B.sending e') t = None.
+Proof.
+  induction p as [|[i0 t0] r IH]; intros d e p' e' rets H i t Hin Hex; [contradiction|].
+  cbn [B.complete] in H. destruct (existsb (fun m => B.mtok m =? t0) d) eqn:E0.
+  - destruct (B.complete r d (B.with_sending e (B.tdel (B.sending e) t0))) as [[p1 e1] r1] eqn:Ec. inversion H; subst.
+    destruct Hin as [Heq|Hin].
+    + inversion Heq; subst.
+      (* later deletions only remove *)
+      assert (forall p d e p' e' rets, B.complete p d e = (p', e', rets) -> forall k, B.tget (B.sending e) k = None -> B.tget (B.sending e') k = None) as Hmono.
+      { clear. induction p as [|[i0 t0] r IH]; intros d e p' e' rets H k Hk; cbn [B.complete] in H; [inversion H; subst; exact Hk|].
+        destruct (existsb (fun m => B.mtok m =? t0) d).
+        - destruct (B.complete r d (B.with_sending e (B.tdel (B.sending e) t0))) as [[p1 e1] r1] eqn:Ec. inversion H; subst.
+          eapply IH; [exact Ec|]. cbn [B.sending B.with_sending].
+          destruct (Z.eq_dec t0 k) as [->|Hne]; [apply BP.tget_tdel_same|rewrite BP.tget_tdel_other by exact Hne; exact Hk].
+        - destruct (B.complete r d e) as [[p1 e1] r1] eqn:Ec. inversion H; subst. eapply IH; [exact Ec|exact Hk]. }
+      eapply Hmono; [exact Ec|]. cbn [B.sending B.with_sending]. apply BP.tget_tdel_same.
+    + eapply IH; [exact Ec|exact Hin|exact Hex].
+  - destruct (B.complete r d e) as [[p1 e1] r1] eqn:Ec. inversion H; subst.
+    destruct Hin as [Heq|Hin]; [inversion Heq; subst; congruence|]. eapply IH; [exact Ec|exact Hin|exact Hex].
+Qed.
+
+(* a Do call that gives up (context done) removes the entry it registered *)
+Theorem timeout_removes : forall c w i t,
+  find (fun p => Nat.eqb (fst p) i) (B.pending w) = Some (i, t) ->
+  B.tget (B.sending (B.wa (fst (B.step c w (BC.Timeout i))))) t = None.
+Proof.
+  intros c w i t H. cbn [B.step]. rewrite H. cbn [fst B.wa B.with_pending B.with_a B.sending B.with_sending].
+  apply BP.tget_tdel_same.
+Qed.
+
+(* a Do call that fails at once leaves the sending cache as it found it *)
+Theorem do_start_error_neutral : forall e r e', B.do_start e r = (e', None) ->
+  forall k, B.tget (B.sending e') k = B.tget (B.sending e) k.
+Proof.
+  intros e r e' H k. unfold B.do_start in H. destruct (B.tget (B.sending e) (B.mtok r)) eqn:Et.
+  - inversion H; subst. reflexivity.
+  - destruct (blen (B.mbody r) <=? Block.Model.size (B.eszx e)); [discriminate|].
+    destruct (negb (B.is_upload (B.mcode r))); [|discriminate]. inversion H; subst.
+    cbn [B.sending B.with_sending]. rewrite Z.eqb_refl. destruct (Z.eq_dec (B.mtok r) k) as [<-|Hne].
+    + rewrite BP.tget_tdel_same. symmetry. exact Et.
+    + rewrite !BP.tget_tdel_other by exact Hne. reflexivity.
+Qed.
+
+(* the expiry sweep with every deadline passed empties both caches of the side *)
+Theorem expire_clears : forall c w atB,
+  let w' := fst (B.step c w (BC.Expire atB)) in
+  if atB then B.sending (B.wb w') = [] /\ B.receiving (B.wb w') = []
+  else B.sending (B.wa w') = [] /\ B.receiving (B.wa w') = [].
+Proof. intros c w [|]; cbn; split; reflexivity. Qed.
+
+(* ================================================================== *)
+(* 5. limiter: reachable states of the composite are states of Limiter.Model *)
+
+Lemma settle_is_run : forall fuel l, exists tr, L.settle_gen true fuel l = L.run l tr.
+Proof.
+  induction fuel as [|f IH]; intros l; cbn [L.settle_gen]; [exists []; reflexivity|].
+  destruct (L.first_enabled l (L.arr l)) as [a|]; [|exists []; reflexivity].
+  destruct (IH (L.step_gen true l a)) as [tr Htr]. exists (a :: tr). rewrite Htr. reflexivity.
+Qed.
+
+Lemma run_app l t1 t2 : L.run (L.run l t1) t2 = L.run l (t1 ++ t2).
+Proof. unfold L.run. rewrite fold_left_app. reflexivity. Qed.
+
+(* ================================================================== *)
+(* 6. per-ID lock map inside the composite: one handler thread, Lock ... Unlock per datagram *)
+
+Lemma inv_all_out_empty s : Inv s -> (forall t x, nth_error (pcs s) t = Some x -> x = Out) -> tab s = [].
+Proof.
+  intros I H. destruct (tab s) as [|[k e] r] eqn:Ht; auto.
+  assert (Hl : lookup (tab s) k = Some e) by (rewrite Ht; cbn; rewrite Z.eqb_refl; reflexivity).
+  destruct (i_cnt s I k e Hl) as [_ Hp].
+  destruct (count_pos_ex (inside k) (pcs s) Hp) as (t & x & Hn & Hx). rewrite (H t x Hn) in Hx. discriminate.
+Qed.
+
+Definition mx_idle (s : mmap) : Prop := Inv s /\ pcs s = [Out].
+
+Lemma step_out_pcs s t k : nth_error (pcs s) t = Some Out -> exists e, pcs (MutexMap.step s (t, k)) = updl t (Waiting k e) (pcs s).
+Proof. intros H. unfold MutexMap.step. rewrite H. destruct (lookup (tab s) k); eexists; reflexivity. Qed.
+
+Lemma step_wait_pcs s t k k' e : Inv s -> nth_error (pcs s) t = Some (Waiting k e) -> count (owns e) (pcs s) = 0 ->
+  pcs (MutexMap.step s (t, k')) = updl t (Holding k e) (pcs s).
+Proof.
+  intros I H Hc. unfold MutexMap.step. rewrite H. rewrite (i_own s I e) in Hc.
+  destruct (locked (heap s e)); [cbn in Hc; lia|reflexivity].
+Qed.
+
+Lemma step_hold_pcs s t k k' e : Inv s -> nth_error (pcs s) t = Some (Holding k e) ->
+  pcs (MutexMap.step s (t, k')) = updl t (Releasing e) (pcs s).
+Proof.
+  intros I H. unfold MutexMap.step. rewrite H. rewrite (i_ref s I t k e (or_intror H)). reflexivity.
+Qed.
+
+Lemma step_rel_pcs s t k' e : Inv s -> nth_error (pcs s) t = Some (Releasing e) ->
+  pcs (MutexMap.step s (t, k')) = updl t Out (pcs s).
+Proof.
+  intros I H. unfold MutexMap.step. rewrite H.
+  assert (Ho : owns e (Releasing e) = true) by (cbn; apply Nat.eqb_refl).
+  pose proof (count_ex_pos _ _ _ _ H Ho) as Hp. rewrite (i_own s I e) in Hp.
+  destruct (locked (heap s e)); [reflexivity|cbn in Hp; lia].
+Qed.
+
+Lemma mx_cycle s k : mx_idle s -> mx_idle (exec s [(O, k); (O, k); (O, k); (O, k)]) /\ tab (exec s [(O, k); (O, k); (O, k); (O, k)]) = [].
+Proof.
+  intros [I Hp]. cbn [exec fold_left].
+  set (s1 := MutexMap.step s (O, k)). assert (I1 : Inv s1) by (apply step_inv; exact I).
+  destruct (step_out_pcs s O k ltac:(rewrite Hp; reflexivity)) as [e E1]. fold s1 in E1. rewrite Hp in E1. cbn [updl] in E1.
+  set (s2 := MutexMap.step s1 (O, k)). assert (I2 : Inv s2) by (apply step_inv; exact I1).
+  assert (E2 : pcs s2 = [Holding k e]).
+  { unfold s2. rewrite (step_wait_pcs s1 O k k e I1); rewrite E1; reflexivity. }
+  set (s3 := MutexMap.step s2 (O, k)). assert (I3 : Inv s3) by (apply step_inv; exact I2).
+  assert (E3 : pcs s3 = [Releasing e]).
+  { unfold s3. rewrite (step_hold_pcs s2 O k k e I2); rewrite E2; reflexivity. }
+  set (s4 := MutexMap.step s3 (O, k)). assert (I4 : Inv s4) by (apply step_inv; exact I3).
+  assert (E4 : pcs s4 = [Out]).
+  { unfold s4. rewrite (step_rel_pcs s3 O k e I3); rewrite E3; reflexivity. }
+  split; [split; assumption|].
+  apply inv_all_out_empty; [exact I4|]. rewrite E4. intros [|[|t]] x Hx; cbn in Hx; inversion Hx; reflexivity.
 Qed.
